@@ -26,6 +26,9 @@ func createQ4(
 	eds *rsmt2d.ExtendedDataSquare,
 ) error {
 	verifMark("q4.create", path, 0)
+	if err := verifFault("q4.create", path, 0); err != nil {
+		return fmt.Errorf("creating Q4 file: %w", err)
+	}
 	mod := os.O_RDWR | os.O_CREATE | os.O_EXCL // ensure we fail if already exist
 	f, err := os.OpenFile(path, mod, filePermissions)
 	if err != nil {
@@ -37,6 +40,9 @@ func createQ4(
 	err = writeQ4File(f, eds)
 	if errClose := f.Close(); errClose != nil {
 		err = errors.Join(err, fmt.Errorf("closing created Q4 file: %w", errClose))
+	}
+	if errF := verifFault("q4.close", path, 0); errF != nil {
+		err = errors.Join(err, fmt.Errorf("closing created Q4 file: %w", errF))
 	}
 	verifMark("q4.closed", path, 0)
 
@@ -52,6 +58,9 @@ func writeQ4File(f *os.File, eds *rsmt2d.ExtendedDataSquare) error {
 		return fmt.Errorf("writing Q4: %w", err)
 	}
 
+	if err := verifFault("q4.flush", f.Name(), 0); err != nil {
+		return fmt.Errorf("flushing Q4: %w", err)
+	}
 	if err := buf.Flush(); err != nil {
 		return fmt.Errorf("flushing Q4: %w", err)
 	}
@@ -67,6 +76,9 @@ func writeQ4(w io.Writer, eds *rsmt2d.ExtendedDataSquare) error {
 	for i := range half {
 		for j := range half {
 			shr := eds.GetCell(i+half, j+half) // TODO: Avoid copying inside GetCell
+			if err := verifFault("q4.share", "", int(i*half+j)); err != nil {
+				return fmt.Errorf("writing share: %w", err)
+			}
 			_, err := w.Write(shr)
 			if err != nil {
 				return fmt.Errorf("writing share: %w", err)
